@@ -7,6 +7,8 @@ import (
 	"sort"
 	"strings"
 
+	"golang.org/x/tools/go/ssa"
+
 	"verif/checker/core"
 )
 
@@ -20,7 +22,7 @@ var noFuncOperand = map[string]string{
 }
 
 func c18(c *core.Ctx, r *core.Report) {
-	r.Explain("R18.operands: the address-taken-function scan (reachability.preTraversalVisitValuesInstruction) must read, for every ssa.Instruction kind, every operand field that go/ssa's own Operands method exposes for that kind (a *ssa.Function can appear as any operand: call value, call argument, stored value, compared value, ...); kinds without a case are discharged only if they have no operand that can hold a function value. R18.calls: findCallees' switch arms for call instructions are non-empty or the callee operand is covered by the operand scan (checked via R18.operands on Call.Value). R18.iface: if the methods marked at a MakeInterface depend on the static interface type, conversions that widen the callable method set (TypeAssert to an interface, ChangeInterface) must be handled too. R18.roots: entry selection is monotone in the two exclusion flags (each disjunct is guarded by the negated flag).")
+	r.Explain("R18.operands: the address-taken-function scan (reachability.preTraversalVisitValuesInstruction) must read, for every ssa.Instruction kind, every operand field that go/ssa's own Operands method exposes for that kind (a *ssa.Function can appear as any operand: call value, call argument, stored value, compared value, ...); kinds without a case are discharged only if they have no operand that can hold a function value. R18.calls: findCallees' switch arms for call instructions are non-empty or the callee operand is covered by the operand scan (checked via R18.operands on Call.Value). R18.iface: if the methods marked at a MakeInterface depend on the static interface type, conversions that widen the callable method set (TypeAssert to an interface, ChangeInterface) must be handled too. R18.roots: entry selection is monotone in the two exclusion flags (each disjunct is guarded by the negated flag). R18.memo: any get-or-compute cache in the reachability package stores only values whose inputs all contribute to the cache key (interprocedural data dependence; positive controls from an embedded fixture are re-run on every check).")
 	r.NotDecided("containment of the pointer-analysis call graph in the reported set; reflection; anything about executions.")
 	tab, probs := c.OperandTable()
 	for _, p := range probs {
@@ -168,4 +170,8 @@ func c18(c *core.Ctx, r *core.Report) {
 	} else {
 		r.Fail("infra.anchor-unresolved", "R18.roots|analysis/reachability.findEntryPoints", "", "not found")
 	}
+
+	// ---- R18.memo
+	memoRule(c, r, "R18.memo", func(fn *ssa.Function, rel string) bool { return rel == "analysis/reachability" },
+		"methods made callable by a conversion to a different interface (or any callee depending on the missing input) are not marked reachable")
 }
